@@ -44,8 +44,14 @@ QuietEv == /\ Here /\ Ev.e = "Q"
            /\ pool = <<>> /\ srv = <<>> /\ \A f \in Flows : cnt[f] = Ev.cnt[f] /\ byt[f] = Ev.byt[f]
            /\ UNCHANGED svars /\ Consume
 SilentStep == Silent /\ Keep
+\* a scheduler without next hop: its departures are not seen at a tap
+HiddenDepart == Traces[tid].noout = 1 /\ Depart /\ Keep
+\* ... and the clock has to stop at the end of each transmission although no event is logged there
+HiddenTick == /\ Traces[tid].noout = 1 /\ srv # <<>> /\ started /\ fin > now
+              /\ (More => fin <= Ev.t)
+              /\ TickTo(fin) /\ Keep
 TickEv == More /\ TickTo(Ev.t) /\ Keep
-Next == ArriveEv \/ DepartEv \/ SampleEv \/ QuietEv \/ SilentStep \/ TickEv
+Next == ArriveEv \/ DepartEv \/ SampleEv \/ QuietEv \/ SilentStep \/ HiddenDepart \/ HiddenTick \/ TickEv
 Spec == Init /\ [][Next]_vars
 
 Mark == TLCSet(tid, IF l > TLCGet(tid) THEN l ELSE TLCGet(tid))
